@@ -361,7 +361,19 @@ def rule_exit_status(ctx, R="C03.2"):
             if x["k"] == "Return":
                 cs = facts_str(conditions_to(fn["body"], x) or [])
                 if not any("input_files.is_empty()" in c and not c.lstrip("(").startswith("!") for c in cs):
-                    bad_exit = "`%s` under %s" % (render(x)[:60], cs)
+                    # an early return that follows the summary line in its own block (and returns SUCCESS / FAILURE,
+                    # decided by the evaluation above) is the end of the run written differently
+                    after_summary = False
+                    for parent, slot, child in (find_path(fn["body"], x) or []):
+                        if parent["k"] == "Block":
+                            for st_ in parent["stmts"]:
+                                if st_ is child:
+                                    break
+                                if any(m_["k"] == "MethodCall" and m_["method"] == "write_message" and re.search(r"issues? found|summary", render(m_), re.I) for m_ in walk(st_)):
+                                    after_summary = True
+                    val_ = render(strip(x["e"])) if x.get("e") is not None else ""
+                    if not (after_summary and val_ in ("ExitCode::SUCCESS", "ExitCode::FAILURE")):
+                        bad_exit = "`%s` under %s" % (render(x)[:60], cs)
             elif x["k"] == "Call" and x["func"]["k"] == "Path" and (x["func"]["path"].endswith("ExitCode::from") or x["func"]["path"].endswith("process::exit") or x["func"]["path"].endswith("process::abort") or x["func"]["path"] in ("exit", "abort")):
                 bad_exit = "`%s`" % render(x)[:60]
             if bad_exit:
